@@ -403,6 +403,13 @@ fn disambiguate(rec: &mut WorldRecords) {
         let snap = u.clone();
         for e in u.entries.iter_mut() {
             for r in e.split_a.iter_mut().chain(e.split_b.iter_mut()) {
+                if r.style == RefStyle::Inline && r.dic == 1 {
+                    // a reference to a row of the same user lexicon: later enrichment (boundary-length readings falling
+                    // back to the headword) can make another row carry the same triple
+                    if snap.entries.iter().filter(|x| same(x, &snap.entries[r.index])).count() != 1 {
+                        r.style = RefStyle::UserNum;
+                    }
+                }
                 if r.style == RefStyle::Inline && r.dic == 0 {
                     let t = &sys.entries[r.index];
                     let in_user = snap.entries.iter().any(|x| same(x, t));
